@@ -1,7 +1,6 @@
 package streams
 
 import (
-	"github.com/paulsonkoly/chess-3/move"
 
 	"verifharness/hx"
 	"verifharness/posgen"
@@ -15,7 +14,7 @@ func init() {
 
 func runMk(a hx.Args) string {
 	b, i := a.Board(0)
-	kind, m := a.Int(i), move.Move(a.U64(i+1))
+	kind, m := a.Int(i), hx.U2M(a.U64(i+1))
 	me := b.STM
 	out := &hx.Nums{}
 	if kind == 0 {
@@ -47,7 +46,7 @@ func genMk(rng *hx.Rng, n int, tier string, emit func(hx.Input)) {
 			k := 1 + rng.Intn(4)
 			for j := 0; j < k && len(ms) > 0 && cnt < n; j++ {
 				m := ms[rng.Intn(len(ms))]
-				emit(hx.Input{In: in + " 0 " + (&hx.Nums{}).U(uint64(m)).String(), Desc: p.Desc() + " make " + m.String(),
+				emit(hx.Input{In: in + " 0 " + (&hx.Nums{}).U(hx.M2U(m)).String(), Desc: p.Desc() + " make " + m.String(),
 					Tags: append(posgen.Tags(p.B), p.Kind), NonTrivial: true, Key: p.B.FEN() + m.String()})
 				cnt++
 			}
